@@ -9,6 +9,7 @@ package blk
 import (
 	"context"
 	"fmt"
+	"github.com/platinummonkey/go-concurrency-limits/patterns/pool"
 	"sync"
 	"sync/atomic"
 	"testing/synctest"
@@ -30,11 +31,18 @@ type Kind struct {
 	Evict    bool          `json:"evict"`    // queue: BacklogEvictDoneCtx
 	Backlog  int           `json:"backlog"`  // queue: MaxBacklogSize
 	Precise  bool          `json:"precise"`  // strategy kind
+	// ViaPool: the queue limiter is built by pool.NewPool(delegate, ordering, Backlog, PoolTimeout, ...) - Timeout is then the
+	// bound that results (the documented default of one second for a PoolTimeout <= 0); World.Queue is nil
+	ViaPool     bool          `json:"via_pool,omitempty"`
+	PoolTimeout time.Duration `json:"pool_timeout_argument,omitempty"`
 }
 
 func (k Kind) String() string {
 	switch k.Family {
 	case "queue":
+		if k.ViaPool {
+			return fmt.Sprintf("pool-%s", k.Ordering)
+		}
 		return fmt.Sprintf("queue-%s-evict=%v", k.Ordering, k.Evict)
 	case "blocking":
 		if k.Timeout == 0 {
@@ -126,6 +134,18 @@ func NewWorld(k Kind, capacity int) *World {
 		w.Deadline = time.Now().Add(k.Timeout)
 		w.Lim = limiter.NewDeadlineLimiter(w.Gate, w.Deadline, nil)
 	case "queue":
+		if k.ViaPool {
+			o := pool.OrderingFIFO
+			if k.Ordering == "lifo" {
+				o = pool.OrderingLIFO
+			}
+			p, err := pool.NewPool(w.Gate, o, k.Backlog, k.PoolTimeout, nil, w.Reg)
+			if err != nil {
+				panic(err)
+			}
+			w.Lim = p
+			break
+		}
 		q := limiter.NewQueueBlockingLimiterFromConfig(w.Gate, limiter.QueueLimiterConfig{Ordering: limiter.QueueOrdering(k.Ordering),
 			MaxBacklogSize: k.Backlog, MaxBacklogTimeout: k.Timeout, BacklogEvictDoneCtx: k.Evict, MetricRegistry: w.Reg})
 		w.Queue, w.Lim = q, q
